@@ -49,7 +49,10 @@ CONSTANTS ULeaves,     \* set of <<vn, vd, en, ed>>
           PowN,        \* integer exponents of "powc"
           Depth,       \* 2 or 3
           ULeaves3, Consts3, PowN3,   \* (smaller) alphabets of the depth-3 family
-          ValCap       \* powc / products are only built over operands with |num|,|den| <= ValCap
+          ValCap,      \* powc / products are only built over operands with |num|,|den| <= ValCap
+          AbsFix,      \* FALSE: err_num.py as found.  TRUE: * and / take np.abs of the number / of the
+                       \* divisor's value (repaired code); NonNegative then is an ordinary invariant
+          LogFix       \* FALSE: as found.  TRUE: __pow__ uses log(base), __rpow__ uses abs(log(other))
 
 VARIABLES fam, tree
 vars == <<fam, tree>>
@@ -221,12 +224,14 @@ Rule(t) ==
          [] tag = "mul" -> <<RMul(a[1], b[1]), 1,
                              RAdd(RMul(a[3], RSq(b[1])), RMul(RSq(a[1]), b[3]))>>
          \* __mul__ (number): err = self._error * other
-         [] tag = "mulc" -> <<RMul(a[1], p), a[2] * RSgn(p), RMul(a[3], RSq(p))>>
+         \* (repaired: err = self._error * np.abs(other))
+         [] tag = "mulc" -> <<RMul(a[1], p), IF AbsFix THEN a[2] ELSE a[2] * RSgn(p), RMul(a[3], RSq(p))>>
          \* __truediv__ (NumberError): np.sqrt(e1**2 + (v1*e2/v2)**2) / v2
-         [] tag = "div" -> <<RDiv(a[1], b[1]), RSgn(b[1]),
+         \* (repaired: ... / np.abs(v2))
+         [] tag = "div" -> <<RDiv(a[1], b[1]), IF AbsFix THEN 1 ELSE RSgn(b[1]),
                              RDiv(RAdd(a[3], RDiv(RMul(RSq(a[1]), b[3]), RSq(b[1]))), RSq(b[1]))>>
          \* __truediv__ (number): err = self._error / other
-         [] tag = "divc" -> <<RDiv(a[1], p), a[2] * RSgn(p), RDiv(a[3], RSq(p))>>
+         [] tag = "divc" -> <<RDiv(a[1], p), IF AbsFix THEN a[2] ELSE a[2] * RSgn(p), RDiv(a[3], RSq(p))>>
          \* __pow__ (number): err = np.abs(other * v ** (other - 1)) * self._error
          \* apply(fun, grad):  err = np.abs(grad(v)) * self._error
          [] tag \in {"powc", "apply"} ->
@@ -321,10 +326,14 @@ SymRule(t) ==
          \* __pow__ (number): |other * v**(other-1)| * e = val * |other / v| * e
          [] tag = "powh" -> <<"rel", RMul(a[3], RSq(RDiv(p, a[1]))), Zero, One, a[2]>>
          \* __pow__ (NumberError): err1 = b * v**(b-1) * ea ; err2 = np.log(other._value) * val * eb
-         [] tag = "powu" -> IF RSgn(b[1]) <= 0 THEN <<"nan", Zero, Zero, One, 1>>
+         \* (repaired: err2 = np.log(self._value) * val * eb)
+         [] tag = "powu" -> IF LogFix THEN <<"rel", RMul(a[3], RSq(RDiv(b[1], a[1]))), b[3], a[1], 1>>
+                            ELSE IF RSgn(b[1]) <= 0 THEN <<"nan", Zero, Zero, One, 1>>
                             ELSE <<"rel", RMul(a[3], RSq(RDiv(b[1], a[1]))), b[3], b[1], 1>>
          \* __rpow__: val = other ** v ; err = np.log(self._value) * val * self._error
-         [] tag = "rpow" -> IF RSgn(b[1]) <= 0 THEN <<"nan", Zero, Zero, One, 1>>
+         \* (repaired: err = np.abs(np.log(other)) * val * self._error)
+         [] tag = "rpow" -> IF LogFix THEN <<"rel", Zero, b[3], p, b[2]>>
+                            ELSE IF RSgn(b[1]) <= 0 THEN <<"nan", Zero, Zero, One, 1>>
                             ELSE <<"rel", Zero, b[3], b[1], b[2] * LnSign(b[1])>>
 SymRef(t) ==
     LET tag == t[1]
